@@ -21,15 +21,19 @@ Record att := { a_target : option name;   (* None: not given in the configuratio
                 a_phase : phase }.        (* where the instrumented class reads the attribute *)
 Inductive iospec := IoNone | IoUri (u : nat) | IoMod (m : name).
 Inductive kind := KPlain | KHasIO (io : iospec) | KPinata (scan : list name).
+(* fault script of the poll-thread start-up: CommunicationFailedError raised by initialReads of the module or by the
+   first call of the read function of its parameter x_k (any other exception of these calls is absorbed by
+   __pollThread / callPollFunc and does not change what the thread does next) *)
+Inductive cfault := CFNone | CFIReads | CFRead (k : nat).
 Record decl := { d_kind : kind; d_tag : nat; d_export : bool; d_atts : list att; d_poll : bool;
-                 d_writes : list nat; d_fail_early : bool; d_fail_init : bool; d_hang : bool }.
+                 d_writes : list nat; d_fail_early : bool; d_fail_init : bool; d_hang : bool; d_cfail : cfault }.
 Record cfg := { c_static : list (name * decl);     (* the configuration file, in declaration order *)
                 c_dyn : list (name * decl) }.      (* what the Pinata modules will find *)
 
 Definition io_name (m : name) : name := 100 + m.
 Definition io_decl : decl :=
   {| d_kind := KPlain; d_tag := 0; d_export := true; d_atts := []; d_poll := true; d_writes := [];
-     d_fail_early := false; d_fail_init := false; d_hang := false |}.
+     d_fail_early := false; d_fail_init := false; d_hang := false; d_cfail := CFNone |}.
 
 (* ---------------------------------------------------------------- events, errors *)
 Inductive event :=
@@ -37,6 +41,8 @@ Inductive event :=
 | ESee (u : name) (idx : nat) (t : option name) (ok : bool)   (* u read attribute idx and got t; ok: t._isinitialized *)
 | EStart (m : name)
 | EWrite (m : name) (k : nat) | EIReads (m : name) | ERead (m : name) (k : nat) | EStarted (t : name)
+| ECWait (t : name)         (* triggerPoll.wait(0.1) after a communication failure in the start-up of poll thread t *)
+| EDoPoll (m : name)        (* first pass of the regular polling loop: doPoll of m *)
 | EReady (ok : bool)        (* _processCfg returned; ok = false: after the time-out *)
 | EExit                     (* sys.exit(1) with the list of errors *)
 | EStop (m : name) | EShutdown (m : name).
@@ -314,11 +320,37 @@ Record sys := { s_node : node; s_threads : list thread; s_pc : mainpc }.
    Module.writeInitParams, which goes on with the next configured value: the attempt is the event EWrite, the program
    of the thread does not depend on its outcome (fact writeinitparams_absorbs_write_errors of Gen/C15.v; the driver
    scripts such failures, field wfail of a case, and the model is compared on them). *)
-Definition thread_prog (st : node) (t : name) : list event :=
+Definition startup_prog (st : node) (t : name) : list event :=
   let L := polled_of st t in
   flat_map (fun m => map (EWrite m) (d_writes (decl_of st m)) ++ [EIReads m]) L ++
-  flat_map (fun m => [ERead m 0; ERead m 1]) (filter (fun m => d_poll (decl_of st m)) L) ++
-  [EStarted t].
+  flat_map (fun m => [ERead m 0; ERead m 1]) (filter (fun m => d_poll (decl_of st m)) L).
+
+(* CommunicationFailedError: raised by initialReads (re-raised by the inner handler of __pollThread) or by a first
+   read (callPollFunc with raise_com_failed=True); everything else in the start-up sequence is skipped *)
+Definition fails_at (st : node) (e : event) : bool :=
+  match e with
+  | EIReads m => match d_cfail (decl_of st m) with CFIReads => true | _ => false end
+  | ERead m k => match d_cfail (decl_of st m) with CFRead j => Nat.eqb j k | _ => false end
+  | _ => false
+  end.
+
+(* the events up to and including the first one that raises; true: the sequence was abandoned *)
+Fixpoint cut_at (f : event -> bool) (l : list event) : list event * bool :=
+  match l with
+  | [] => ([], false)
+  | e :: r => if f e then ([e], true) else let '(p, b) := cut_at f r in (e :: p, b)
+  end.
+
+(* after the start-up: except CommunicationFailedError calls the started callback early, then triggerPoll.wait(0.1)
+   and "break" (no second attempt); without failure the callback is called after the loop.  A thread with polled
+   modules then enters the regular loop, whose first pass calls doPoll of every polled module (last_main = 0). *)
+Definition after_startup (st : node) (t : name) (aborted : bool) : list event :=
+  [EStarted t] ++ (if aborted then [ECWait t] else []) ++
+  map EDoPoll (filter (fun m => d_poll (decl_of st m)) (polled_of st t)).
+
+Definition thread_prog (st : node) (t : name) : list event :=
+  let '(pre, aborted) := cut_at (fails_at st) (startup_prog st t) in
+  pre ++ after_startup st t aborted.
 
 Definition finish_start (st : node) : node * mainpc :=
   match errors st with
@@ -338,18 +370,19 @@ Inductive sitem := SMain | SThread (t : name) | STimeout.
 Definition all_done (ths : list thread) : bool := forallb t_done ths.
 
 Definition thread_step (st : node) (th : thread) : node * thread :=
-  if t_hung th || t_done th then (st, th)
+  if t_hung th then (st, th)
   else match t_prog th with
        | [] => (st, th)
        | e :: rest =>
            match e with
            | EIReads m =>
                if d_hang (decl_of st m)
-               then (st, {| t_id := t_id th; t_prog := t_prog th; t_hung := true; t_done := false |})
-               else (emit e st, {| t_id := t_id th; t_prog := rest; t_hung := false; t_done := false |})
+               then (st, {| t_id := t_id th; t_prog := t_prog th; t_hung := true; t_done := t_done th |})
+               else (emit e st, {| t_id := t_id th; t_prog := rest; t_hung := false; t_done := t_done th |})
            | EStarted _ => (emit (EStarted (t_id th)) st, {| t_id := t_id th; t_prog := rest; t_hung := false; t_done := true |})
-           | EWrite _ _ | ERead _ _ => (emit e st, {| t_id := t_id th; t_prog := rest; t_hung := false; t_done := false |})
-           | _ => (st, {| t_id := t_id th; t_prog := rest; t_hung := false; t_done := false |})   (* not a poll thread event *)
+           | EWrite _ _ | ERead _ _ | ECWait _ | EDoPoll _ =>
+               (emit e st, {| t_id := t_id th; t_prog := rest; t_hung := false; t_done := t_done th |})
+           | _ => (st, {| t_id := t_id th; t_prog := rest; t_hung := false; t_done := t_done th |})   (* not a poll thread event *)
            end
        end.
 
